@@ -16,6 +16,7 @@ import EEM.Model.SettingsTree
 import EEM.Gen.SettingsTables
 import EEM.Model.Gate
 import EEM.Gen.Guards
+import EEM.Model.Dst
 
 open EEM EEM.Proto EEM.Model
 
@@ -424,6 +425,32 @@ def opGate (args : List String) : String :=
     | _, _ => "bad-op"
   | _ => "bad-op"
 
+open EEM.Model.Dst in
+/-- `dst <nDays> <counted:h,h,...> × nDays <pred...>`: day ops and the transformed flat prediction -/
+def opDst (args : List String) : String :=
+  match args with
+  | n :: rest =>
+    match parseNat n with
+    | some n =>
+      let days := rest.take n
+      let preds := rest.drop n
+      let parseDay := fun (d : String) => match d.splitOn ":" with
+        | [c, hs] => do
+          let c ← parseNat c
+          let hs ← (if hs == "" then some [] else (hs.splitOn ",").mapM parseNat)
+          pure (hs, c)
+        | _ => none
+      match days.mapM parseDay, preds.mapM parseFloat with
+      | some ds, some ps =>
+        match ds.mapM (fun (hs, c) => dayOp hs c) with
+        | .error _ => "err ValueError"
+        | .ok ops =>
+          let showOp := fun | DayOp.none => "n" | .interp h => s!"i{h}" | .mean h => s!"m{h}"
+          "ok " ++ " ".intercalate (ops.map showOp) ++ " | " ++ " ".intercalate ((transformDst ops ps).map showFloat)
+      | _, _ => "bad-op"
+    | none => "bad-op"
+  | _ => "bad-op"
+
 def step (line : String) : String :=
   match words line with
   | "submodel" :: args => opPredictSubmodel args
@@ -451,6 +478,7 @@ def step (line : String) : String :=
   | "dgate" :: args => opDGate args
   | "lock" :: args => opLock args
   | "gate" :: args => opGate args
+  | "dst" :: args => opDst args
   | _ => "bad-op"
 
 partial def loop (h : IO.FS.Stream) (out : IO.FS.Stream) : IO Unit := do
